@@ -17,6 +17,12 @@ def build_obs(tier, tables=None):
                     obs.append(Ob("print-root%d-inst%d-pf%03x-ind%d" % (hr, hi, m, ind), "print_step.c",
                                   ["-DHAS_ROOT=%d" % hr, "-DHAS_INST1=%d" % hi, "-DPFMASK=%d" % m, "-DINDENT0=%d" % ind], unwind=11, checks="none",
                                   params={"root_has_filter": hr, "instance_has_own_filter": hi, "print_callback_mask": m, "start_indent": ind}))
+    # inheritance at any depth: the recursive print function entered with an inherited filter (root = an
+    # intermediate context without a filter of its own)
+    for hi in (0, 1):
+        for m in masks[:2]:
+            obs.append(Ob("print-inherited-inst%d-pf%03x" % (hi, m), "print_step.c", ["-DHAS_ROOT=2", "-DHAS_INST1=%d" % hi, "-DPFMASK=%d" % m, "-DINDENT0=1"], unwind=11, checks="none",
+                          params={"root_has_filter": "inherited (recursive entry)", "instance_has_own_filter": hi, "print_callback_mask": m, "start_indent": 1}))
     obs.append(Ob("print-create-no-own-filter", "print_create.c", [], unwind=6, checks="none"))
     return obs
 
@@ -27,7 +33,7 @@ def run(tier, seed):
         bounds="constructed two-level tree (int, unset string, int list of 2, multi section with 2 instances of {int, string (unset in one)}, function option); concrete per obligation: filter on the root yes/no, own filter on one instance yes/no, which options carry a print callback, start indent; symbolic: every filter answer of both filters (18 booleans)",
         assumptions=[
             "fprintf is an event logger keyed by format string and option-name pointer identity; formatted bytes are C05's claim",
-            "depth 2 only; deeper inheritance follows from the same recursive call (paper argument); a separate obligation shows that sections created by cfg_setopt()/cfg_addtsec() carry no filter of their own",
+            "constructed tree of depth 2; deeper nesting by induction: the recursive function cfg_print_pff_indent() is also entered directly with an inherited filter on a context without its own (checked step), so a filter reaches every level; a separate obligation shows that sections created by cfg_setopt()/cfg_addtsec() carry no filter of their own",
         ])
 
 
